@@ -273,6 +273,29 @@ func c16Run(ctx *core.Ctx) {
 			base += gen.Pow(len(alpha), n)
 		}
 	}
+	// (1b) bounds on the shared test-data corpus and its single mutations (quick: every 12th document)
+	cbase := 1 << 26
+	for di, d := range gen.Corpus(RepoRoot()) {
+		if ctx.Expired() {
+			ctx.Cap("wall-clock cap in corpus mutations")
+			break
+		}
+		if ctx.Mine(di) {
+			ctx.Eval(1)
+			c16Bounds(ctx, d.Text)
+		}
+		if (!ctx.Thorough() && di%12 != 5) || len(d.Text) > 6000 {
+			continue
+		}
+		gen.CorpusMutations(d.Text, gen.DSLLexemesSmall, func(i int, s string) {
+			if ctx.Mine(cbase + i) {
+				ctx.Eval(1)
+				c16Bounds(ctx, s)
+				ctx.Flag("c16:corpus-mutations")
+			}
+		})
+		cbase += 1 << 18
+	}
 	// (2) exact positions of listener-level errors, under layouts
 	kk := 0
 	for _, b := range c09Bases(false) {
@@ -337,7 +360,7 @@ func c16Run(ctx *core.Ctx) {
 func init() {
 	core.Register(&core.Check{
 		ID: "C16",
-		Rule: "(bounds) every string of <= 3 lexemes (thorough: 4 over a reduced alphabet) over a 38-lexeme DSL alphabet appended to each of 10 valid document prefixes; every syntax error of a rejected string must lie inside the input. " +
+		Rule: "(bounds) every string of <= 3 lexemes (thorough: 4 over a reduced alphabet) over a 38-lexeme DSL alphabet appended to each of 10 valid document prefixes; every syntax error of a rejected string must lie inside the input; the same for every DSL text of the shared test-data corpus and all its single mutations (quick: every 12th document). " +
 			"(exact) every listener-level injection (duplicate relation/condition/parameter, extend in a model, type extended twice) at every site x renderings (uniform styles, single deviations for every 3rd / all) - the error must stand on the offending name given by the renderer's source map. " +
 			"(merge) every conflict-carrying file set of C07 plus 4 look-alike sets (longer-named declarations and same-named relations of other types placed before the conflict) x file orders x layout styles - File and Line must be those of a conflicting declaration. " +
 			"states = distinct error signatures, non-trivial = distinct injected texts",
@@ -349,7 +372,7 @@ func init() {
 		Technique: "bounded exhaustive enumeration of texts / injections x layouts with a source-map oracle",
 		Run:       c16Run,
 		Finish: func(r *core.Result) error {
-			need := []string{"c16:rejected-text", "c16:accepted-text", "c16:merge:duplicate-type", "c16:merge:duplicate-condition", "c16:merge:missing-extension-target", "c16:merge:relation-clash"}
+			need := []string{"c16:rejected-text", "c16:accepted-text", "c16:corpus-mutations", "c16:merge:duplicate-type", "c16:merge:duplicate-condition", "c16:merge:missing-extension-target", "c16:merge:relation-clash"}
 			for k := range c16Msg {
 				need = append(need, "c16:exact:"+k)
 			}
